@@ -39,7 +39,9 @@ STRENGTHENED = {
     'C01-m24', 'C04-m25', 'C05-m24', 'C06-m25', 'C11-m23', 'C16-m25', 'C18-m25', 'C20-m23', 'C20-m25',
     # wave 9 (C16-m27: strengthened from the author's report before the first evaluation)
     'C03-m26', 'C03-m27', 'C03-m28', 'C04-m26', 'C08-m26', 'C08-m27', 'C09-m26', 'C10-m26', 'C13-m26', 'C14-m28',
-    'C15-m26', 'C16-m27', 'C17-m27', 'C18-m27', 'C20-m26', 'C20-m27'}
+    'C15-m26', 'C16-m27', 'C17-m27', 'C18-m27', 'C20-m26', 'C20-m27',
+    # wave 10
+    'C01-m30', 'C02-m29', 'C07-m30', 'C12-m29', 'C16-m30'}
 
 
 def title(notes):
